@@ -42,6 +42,8 @@ def run(ctx):
     ctx.attempt(embedding_dimension_rule, ctx)
     ctx.attempt(weighted_jacobian_rule, ctx)
     ctx.attempt(mass_center_rule, ctx)
+    ctx.attempt(integrate_rule, ctx)
+    ctx.attempt(mesh_center_rule, ctx)
 
     r1 = ctx.rule("R7.1", "every tabulated rule: points inside the reference element, weights sum to the reference measure", min_instances=16)
     r2 = ctx.rule("R7.2", "exactness degree of every tabulated rule >= the documented order", min_instances=16)
@@ -472,3 +474,101 @@ def mass_center_rule(ctx, rid="R7.12"):
             r.fail(f.qualname, f"mass-center:dim{dim}", f.file, f.lineno, "_Simu.center", f"dim {dim}, per-point density: {bad}: the components of the centre of mass are not the weighted means of their own coordinates (one scalar summed over all axes gives three equal numbers)")
         else:
             r.ok(f"dim {dim}: centre of mass == weighted mean of each coordinate")
+
+
+def integrate_rule(ctx, rid="R7.13"):
+    """'... integrals of low-degree polynomials over meshes': _GroupElem.Integrate_e(f) is sum_p wJ[e, p] f(x_p) for every
+    integrand the API accepts: a constant, a scalar field, and a TENSOR-valued field (Ne, nPg, k) -- the sum runs over the
+    integration-point axis, never over a tensor axis (with nPg == k the shapes coincide).  Interpreted under the FeArray
+    protocol model with symbolic weights and coordinates, (Ne, nPg) = (2, 3) with k = 3 and (2, 2) with k = 3."""
+    from types import SimpleNamespace
+
+    from ..femodel import Model, FeV
+    from ..xeval import XObj, XRaise, Opaque
+
+    repo = ctx.repo
+    ge = repo.cls("EasyFEA.FEM._group_elem._GroupElem")
+    f = ge.methods["Integrate_e"]
+    r = ctx.rule(rid, "Integrate_e(f)[e] == sum_p wJ[e, p] f(x_p) for constant, scalar-field and vector-field integrands (nPg == number of components included)", min_instances=6)
+    for (Ne, nP) in ((2, 3), (2, 2)):
+        M = Model(repo)
+        W = FeV((Ne, nP), [Poly.var(f"w{e}{p}") for e in range(Ne) for p in range(nP)])
+        X = FeV((Ne, nP, 3), [Poly.var(f"x{e}{p}{k}") for e in range(Ne) for p in range(nP) for k in range(3)])
+        obj = XObj(ge, {"Get_weightedJacobian_e_pg": lambda mt=None: W, "Get_GaussCoordinates_e_pg": lambda mt=None: X})
+        integrands = {
+            "constant 1": (lambda x, y, z: 1, lambda e, p: [Poly.const(Q(1))]),
+            "scalar field 2x - y": (lambda x, y, z: 2 * x - y, lambda e, p: [2 * X[e, p, 0] - X[e, p, 1]]),
+            "vector field (x, y, z)": (lambda x, y, z: FeV((Ne, nP, 3), [v for e in range(Ne) for p in range(nP) for v in (x[e, p], y[e, p], z[e, p])]), lambda e, p: [X[e, p, 0], X[e, p, 1], X[e, p, 2]]),
+        }
+        for label, (fn, ref) in integrands.items():
+            r.instance(fn=f.qualname)
+            try:
+                out = M.I.call_function(f, [fn, Opaque("matrixType")], self_obj=obj)
+            except XRaise as e:
+                r.fail(f.qualname, f"integrate:{label}:{Ne}x{nP}", f.file, f.lineno, "_GroupElem.Integrate_e", f"{label}, (Ne, nPg) = ({Ne}, {nP}): raises {e}")
+                continue
+            out = XArray.from_nested(out)
+            k = len(ref(0, 0))
+            bad = None
+            want_shape = (Ne,) if k == 1 else (Ne, k)
+            if out.shape not in (want_shape, (Ne, 1) if k == 1 else want_shape):
+                bad = f"shape {out.shape}, expected {want_shape}"
+            else:
+                for e in range(Ne):
+                    for c in range(k):
+                        want = sum((W[e, p] * ref(e, p)[c] for p in range(nP)), Poly())
+                        got = out[e] if out.ndim == 1 else out[e, c]
+                        if bad is None and not is_zero(Poly.of(got) - want):
+                            bad = f"entry [{e}{', ' + str(c) if k > 1 else ''}] is {got!r}, expected sum_p wJ f = {want!r}"
+            if bad:
+                r.fail(f.qualname, f"integrate:{label}:{Ne}x{nP}", f.file, f.lineno, "_GroupElem.Integrate_e", f"{label}, (Ne, nPg) = ({Ne}, {nP}): {bad}: the sum does not run over the integration points (a tensor axis was summed instead: first moments / inertia integrals of a mesh are wrong)")
+            else:
+                r.ok(f"{label}, ({Ne}, {nP}): sum over the integration points")
+
+
+def mesh_center_rule(ctx, rid="R7.14"):
+    """'... centroids ... are exact', also on a mesh that mixes element types: Mesh.center is the measure-weighted mean of the
+    coordinates over ALL main-dimension groups: center_k = sum_g sum_{e,p} wJ x_k / sum_g sum_{e,p} wJ.  Interpreted on a
+    mesh object with two main groups whose weights, integration-point coordinates, centres and measures are symbolic (both
+    ways of computing it -- per-group centres weighted by the measures, or accumulated first moments -- are accepted)."""
+    from types import SimpleNamespace
+
+    from ..xeval import Interp, XObj, XRaise
+    from ..femchain import XFe, fe_hook_full
+    from ..alg import Rat
+
+    repo = ctx.repo
+    mesh = repo.cls("EasyFEA.FEM._mesh.Mesh")
+    f = repo.lookup_method(mesh, "center")
+    r = ctx.rule(rid, "Mesh.center[k] == sum over all main groups of wJ x_k / sum over all main groups of wJ (two groups with symbolic data)", min_instances=1)
+    r.instance(fn=f.qualname)
+    groups = []
+    tot_w = Poly()
+    mom = [Poly(), Poly(), Poly()]
+    for g in range(2):
+        W = XFe((1, 2), [Poly.var(f"w{g}{p}") for p in range(2)])
+        X = XFe((1, 2, 3), [Poly.var(f"x{g}{p}{k}") for p in range(2) for k in range(3)])
+        meas = W[0, 0] + W[0, 1]
+        cen = XArray((3,), [Rat.of(W[0, 0] * X[0, 0, k] + W[0, 1] * X[0, 1, k]) / Rat.of(meas) for k in range(3)])
+        groups.append(SimpleNamespace(Get_weightedJacobian_e_pg=lambda mt=None, W=W: W, Get_GaussCoordinates_e_pg=lambda mt=None, X=X: X, center=cen, length=meas, area=meas, volume=meas, dim=2))
+        tot_w = tot_w + meas
+        for k in range(3):
+            mom[k] = mom[k] + W[0, 0] * X[0, 0, k] + W[0, 1] * X[0, 1, k]
+    obj = XObj(mesh, {"dim": 2, "Get_list_groupElem": lambda d=None: list(groups)})
+    I = Interp(repo)
+    I.call_hook = fe_hook_full
+    try:
+        out = XArray.from_nested(I.call_function(f, [], self_obj=obj))
+    except XRaise as e:
+        r.fail(f.qualname, "mesh-center", f.file, f.lineno, "Mesh.center", f"two main groups: raises {e}")
+        return
+    bad = None
+    for k in range(3):
+        want = Rat.of(mom[k]) / Rat.of(tot_w)
+        got = out[k]
+        if bad is None and not is_zero((got if isinstance(got, Rat) else Rat.of(got)) - want):
+            bad = f"component {'xyz'[k]} is {got!r}, expected (sum over both groups of wJ {'xyz'[k]}) / (sum over both groups of wJ)"
+    if bad:
+        r.fail(f.qualname, "mesh-center", f.file, f.lineno, "Mesh.center", f"mesh with two main element groups: {bad}: the centroid of a mesh mixing element types is not the measure-weighted mean over all its groups")
+    else:
+        r.ok("two main groups: centroid == weighted mean over both")
